@@ -158,9 +158,11 @@ hd_setup(void)
 		HD[i].name = t[i].n; HD[i].vt = t[i].vt; HD[i].id = t[i].id;
 		HD[i].kind = i; HD[i].hlen = t[i].hl; HD[i].slen = t[i].sl; HD[i].bs = t[i].bs;
 	}
-	HD[0].md = EVP_md5(); HD[1].md = EVP_sha1(); HD[2].md = EVP_sha224();
-	HD[3].md = EVP_sha256(); HD[4].md = EVP_sha384(); HD[5].md = EVP_sha512();
-	HD[6].md = EVP_md5_sha1();
+	{
+		/* explicit fetch once: avoids an implicit fetch per reference call */
+		static const char *en[NHASH] = { "MD5", "SHA1", "SHA224", "SHA256", "SHA384", "SHA512", "MD5-SHA1" };
+		for (i = 0; i < NHASH; i ++) HD[i].md = EVP_MD_fetch(NULL, en[i], NULL);
+	}
 	for (i = 0; i < NHASH; i ++) {
 		if (HD[i].md == NULL || (size_t)EVP_MD_get_size(HD[i].md) != HD[i].hlen) hfail("evp-md");
 	}
@@ -174,27 +176,27 @@ ref_digest(const hdesc *h, const void *data, size_t len, unsigned char *out)
 	if (!EVP_Digest(len ? data : &z, len, out, &ol, h->md, NULL) || ol != h->hlen) hfail("evp-digest");
 }
 
-static void
-ref_hmac(const hdesc *h, const void *key, size_t klen, const void *data, size_t dlen, unsigned char *out)
-{
-	unsigned int ol = 0;
-	static const unsigned char z = 0;
-	if (HMAC(h->md, klen ? key : &z, (int)klen, dlen ? data : &z, dlen, out, &ol) == NULL
-		|| ol != h->hlen) hfail("evp-hmac");
-}
-
-/* streaming HMAC reference: HMAC(key, p1 || p2 || p3) */
+/* HMAC(key, p1 || p2 || p3) with OpenSSL's HMAC implementation */
 static void
 ref_hmac3(const hdesc *h, const void *key, size_t klen,
 	const void *p1, size_t l1, const void *p2, size_t l2, const void *p3, size_t l3,
 	unsigned char *out)
 {
-	unsigned char *t = xmalloc(l1 + l2 + l3);
-	if (l1) memcpy(t, p1, l1);
-	if (l2) memcpy(t + l1, p2, l2);
-	if (l3) memcpy(t + l1 + l2, p3, l3);
-	ref_hmac(h, key, klen, t, l1 + l2 + l3, out);
-	free(t);
+	static HMAC_CTX *hx;
+	static const unsigned char z = 0;
+	unsigned int ol = 0;
+	if (!hx && !(hx = HMAC_CTX_new())) hfail("hmac-ctx");
+	if (!HMAC_Init_ex(hx, klen ? key : (const void *)&z, (int)klen, h->md, NULL)) hfail("hmac-init");
+	if (l1 && !HMAC_Update(hx, p1, l1)) hfail("hmac-update");
+	if (l2 && !HMAC_Update(hx, p2, l2)) hfail("hmac-update");
+	if (l3 && !HMAC_Update(hx, p3, l3)) hfail("hmac-update");
+	if (!HMAC_Final(hx, out, &ol) || ol != h->hlen) hfail("hmac-final");
+}
+
+static void
+ref_hmac(const hdesc *h, const void *key, size_t klen, const void *data, size_t dlen, unsigned char *out)
+{
+	ref_hmac3(h, key, klen, data, dlen, NULL, 0, NULL, 0, out);
 }
 
 /* chaining-value injection into the legacy OpenSSL contexts */
@@ -905,7 +907,10 @@ hmac_probe(void)
 {
 	unsigned char o[64];
 	unsigned int ol = 0;
-	if (HMAC(EVP_md5_sha1(), "k", 1, (const unsigned char *)"d", 1, o, &ol) != NULL && ol == 36) g_hmac_nh = 7;
+	HMAC_CTX *hx = HMAC_CTX_new();
+	if (hx && HMAC_Init_ex(hx, "k", 1, HD[K_MD5SHA1].md, NULL) && HMAC_Update(hx, (const unsigned char *)"d", 1)
+		&& HMAC_Final(hx, o, &ol) && ol == 36) g_hmac_nh = 7;
+	HMAC_CTX_free(hx);
 }
 
 static void
@@ -1145,10 +1150,13 @@ ref_prf_evp(const char *mdname, const unsigned char *sec, size_t slen,
 	static unsigned char z = 0;
 
 	if (olen == 0 || llen + sdlen > 1000) return 0;
-	kdf = EVP_KDF_fetch(NULL, "TLS1-PRF", NULL);
+	{
+		static EVP_KDF *ckdf;
+		if (!ckdf) ckdf = EVP_KDF_fetch(NULL, "TLS1-PRF", NULL);
+		kdf = ckdf;
+	}
 	if (!kdf) return 0;
 	kc = EVP_KDF_CTX_new(kdf);
-	EVP_KDF_free(kdf);
 	if (!kc) return 0;
 	*p ++ = OSSL_PARAM_construct_utf8_string(OSSL_KDF_PARAM_DIGEST, (char *)mdname, 0);
 	*p ++ = OSSL_PARAM_construct_octet_string(OSSL_KDF_PARAM_SECRET, slen ? (void *)sec : (void *)&z, slen);
@@ -1285,10 +1293,13 @@ ref_hkdf_evp(const hdesc *h, const unsigned char *salt, size_t saltlen,
 	int ok;
 
 	if (olen == 0 || ikmlen == 0 || infolen > 900) return 0;
-	kdf = EVP_KDF_fetch(NULL, "HKDF", NULL);
+	{
+		static EVP_KDF *ckdf;
+		if (!ckdf) ckdf = EVP_KDF_fetch(NULL, "HKDF", NULL);
+		kdf = ckdf;
+	}
 	if (!kdf) return 0;
 	kc = EVP_KDF_CTX_new(kdf);
-	EVP_KDF_free(kdf);
 	if (!kc) return 0;
 	*p ++ = OSSL_PARAM_construct_utf8_string(OSSL_KDF_PARAM_DIGEST, (char *)EVP_MD_get0_name(h->md), 0);
 	*p ++ = OSSL_PARAM_construct_octet_string(OSSL_KDF_PARAM_KEY, (void *)ikm, ikmlen);
@@ -1676,7 +1687,8 @@ part_adrbg(long long cases, long long bigcases)
 		unsigned char *seed;
 		size_t slen;
 		int nops, j, big = idx >= cases;
-		char trace[400];
+		int taint = 0, aligned_only = (int)((idx >> 1) & 1);
+		char trace[400], cls[48];
 		size_t tp = 0;
 
 		if (!MINE()) continue;
@@ -1702,6 +1714,7 @@ part_adrbg(long long cases, long long bigcases)
 					else br_aesctr_drbg_update(dc[i], ul ? u : NULL, ul);
 				}
 				ref_adrbg_update(&rd, u, ul);
+				taint = 0;   /* update() rekeys and resets the counter */
 				tp += (size_t)snprintf(trace + tp, sizeof trace - tp, "U%d:%s,", (int)ul, vf_hexs(u, ul > 8 ? 8 : ul));
 				free(u);
 			} else {
@@ -1709,11 +1722,15 @@ part_adrbg(long long cases, long long bigcases)
 				unsigned char *o0 = NULL, *e;
 				if (big && j == 0) gl = 32768 * 16 - vf_below(&r, 64) + vf_below(&r, 2) * (16 + vf_below(&r, 200));
 				if (big && j == 1) gl = 70000 + vf_below(&r, 3000);
+				if (aligned_only) gl &= ~(size_t)15;
 				e = xmalloc(gl);
 				ref_adrbg_generate(&rd, e, gl);
 				tp += (size_t)snprintf(trace + tp, sizeof trace - tp, "G%d,", (int)gl);
 				for (i = 0; i < ni; i ++) {
 					unsigned char *o = xmalloc(gl);
+					/* class: requests that follow a request whose length was not a
+					   multiple of 16 are keyed separately */
+					snprintf(cls, sizeof cls, "%s%s", iname[i], taint ? "-after-partial-block" : "");
 					memset(o, 0x19, gl);
 					if ((idx + i) & 1) dc[i]->vtable->generate(&dc[i]->vtable, o, gl);
 					else br_aesctr_drbg_generate(dc[i], o, gl);
@@ -1721,24 +1738,25 @@ part_adrbg(long long cases, long long bigcases)
 						/* report only the first differing 64-byte window */
 						size_t k = 0;
 						while (k + 64 < gl && memcmp(o + k, e + k, 64) == 0) k += 64;
-						chk(M_ADRBG, iname[i], o + k, e + k, gl - k > 64 ? 64 : gl - k, "impl=%s seed=%s ops=%s (op %d, offset %d)", iname[i], vf_hexs(seed, slen), trace, j, (int)k);
+						chk(M_ADRBG, cls, o + k, e + k, gl - k > 64 ? 64 : gl - k, "impl=%s seed=%s ops=%s (op %d, offset %d)", iname[i], vf_hexs(seed, slen), trace, j, (int)k);
 						if (memcmp(o, e, gl) != 0 && memcmp(o + k, e + k, gl - k > 64 ? 64 : gl - k) == 0) hfail("window");
 					} else {
-						chk(M_ADRBG, iname[i], o, e, gl, "impl=%s seed=%s ops=%s (op %d)", iname[i], vf_hexs(seed, slen), trace, j);
+						chk(M_ADRBG, cls, o, e, gl, "impl=%s seed=%s ops=%s (op %d)", iname[i], vf_hexs(seed, slen), trace, j);
 					}
 					if (i == 0) o0 = o;
 					else {
 						ncmp[M_ADRBG_X] ++;
-						if (memcmp(o, o0, gl) != 0) chk(M_ADRBG_X, iname[i], o, o0, gl > 64 ? 64 : gl, "impl=%s differs from big; seed=%s ops=%s", iname[i], vf_hexs(seed, slen), trace);
+						if (memcmp(o, o0, gl) != 0) chk(M_ADRBG_X, cls, o, o0, gl > 64 ? 64 : gl, "impl=%s differs from big; seed=%s ops=%s", iname[i], vf_hexs(seed, slen), trace);
 						free(o);
 					}
 				}
+				if (gl & 15) taint = 1;
 				if (idx < 2 && gl > 0) vf_sample("{\"part\":\"adrbg\",\"seedlen\":%d,\"ops\":\"%s\",\"out\":\"%s\"}", (int)slen, trace, vf_hexs(o0, gl > 16 ? 16 : gl));
 				free(o0); free(e);
 			}
 			if (tp > sizeof trace - 40) tp = sizeof trace - 40;
 		}
-		vf_distinct("config", big ? "adrbg/forced-update" : "adrbg/short");
+		vf_distinct("config", "adrbg/%s%s", big ? "forced-update" : "short", aligned_only ? "/whole-blocks" : "/any-length");
 		vf_stat("cases", 1);
 		if (big) vf_stat("adrbg_forced_update_cases", 1);
 		EVP_CIPHER_CTX_free(rd.ecb);
